@@ -349,7 +349,7 @@ func (s *Solver) Check(as []*Term, wantModel bool) (Result, Model) {
 		s.Stats.MaxQuery = d
 	}
 	s.Stats.Queries++
-	if s.Stats.Queries%500 == 0 && os.Getenv("GOSYM_DEBUG") != "" {
+	if s.Stats.Queries%20 == 0 && os.Getenv("GOSYM_DEBUG") != "" {
 		fmt.Fprintf(os.Stderr, "[query %d] ctx=%s res=%v nassert=%d\n", s.Stats.Queries, s.Ctx, res, len(live))
 	}
 	switch res {
